@@ -145,6 +145,12 @@ def run(facts, rep, tier, ctx):
                 any(y[0] == "call" and y[1] in ("HashMap::get_mut", "HashMap::get", "BTreeMap::get_mut") for y in walk(src_[2][0])) and \
                 not any(x[0] == "agg" and x[1] == "error::VfsErrorKind" and x[2] != "FileNotFound" for x in walk(tn))
             if not lookup_miss:
+                # spelled out: `match map.get_mut(path) { None => Err(FileNotFound.into()), Some(..) => .. }`
+                from ..memrules import GuardView
+                kinds_m = [x[2] for x in walk(tn) if x[0] == "agg" and x[1] == "error::VfsErrorKind"]
+                lookup_miss = kinds_m == ["FileNotFound"] and \
+                    GuardView(mm.guards(mm.inter.code_body(b), rbb), mm.inter).vacant(mm.key_arg(b))
+            if not lookup_miss:
                 extra.append(fmt(tn)[:70])
         n += 1
         rep.ob("R19.1", b.id, "%s refuses nothing but a missing entry" % op, not extra, "" if not extra else
